@@ -11,9 +11,11 @@ import (
 	"fmt"
 	"hash/fnv"
 	"math"
+	"os"
 	"regexp/syntax"
 	"strings"
 	"testing"
+	"time"
 
 	"github.com/RoaringBitmap/roaring/v2"
 	"github.com/grafana/regexp"
@@ -92,6 +94,11 @@ func vfC05qAtom(r *vfRand) Q {
 	}
 }
 
+// every float64 bit pattern can arrive as a Boost weight (proto double): ordinary weights plus NaN (two payloads),
+// +-Inf, +-0, negative, huge, denormal; trees are compared by their Coq rendering (float bits), never by ==
+var vfC05qBoostWeights = []float64{0.5, 1, 2, 0.5, 1, 2, 1.5, 20,
+	math.NaN(), math.Float64frombits(0xfff8000000000000), math.Inf(1), math.Inf(-1), 0, math.Copysign(0, -1), -1, math.MaxFloat64, 5e-324}
+
 func vfC05qTree(r *vfRand, depth int) Q {
 	if depth <= 0 || r.Chance(25) {
 		return vfC05qAtom(r)
@@ -106,7 +113,7 @@ func vfC05qTree(r *vfRand, depth int) Q {
 	case 8:
 		return &Type{Type: uint8(r.Intn(3)), Child: vfC05qTree(r, depth-1)}
 	case 9:
-		return &Boost{Boost: []float64{0.5, 1, 2}[r.Intn(3)], Child: vfC05qTree(r, depth-1)}
+		return &Boost{Boost: vfC05qBoostWeights[r.Intn(len(vfC05qBoostWeights))], Child: vfC05qTree(r, depth-1)}
 	default:
 		return &caseScopeQ{Child: vfC05qTree(r, depth-1)}
 	}
@@ -374,7 +381,13 @@ func TestVerifC05Q(t *testing.T) {
 		seed0 := r.U64()
 		for _, rw := range rewrites {
 			before := vfC05qVerdicts(q, seed0)
+			wd := time.AfterFunc(90*time.Second, func() { // see vfC05Watchdog in package index
+				vfOracleFail(rw.name+":does-not-terminate", rw.name+" did not return within 90 s on "+q.String(),
+					map[string]any{"rewrite": rw.name, "query": q.String(), "query_coq": qCoq, "seed": vfSeed(), "n": n, "iteration": i})
+				os.Exit(3)
+			})
 			out, coq := rw.f(q)
+			wd.Stop()
 			after := vfC05qVerdicts(out, seed0)
 			if again := vfC05qCoq(q); again != qCoq {
 				vfOracleFail(rw.name+":mutates-input", rw.name+" modified the tree it was given",
@@ -387,8 +400,13 @@ func TestVerifC05Q(t *testing.T) {
 			}
 			outCoq := vfC05qCoq(out)
 			changed := outCoq != qCoq
-			vfCase(coq, vfKey(rw.name, coq), changed && size >= 3,
-				[]string{rw.name, fmt.Sprintf("%s:changed=%v", rw.name, changed)},
+			class := []string{rw.name, fmt.Sprintf("%s:changed=%v", rw.name, changed)}
+			if strings.Contains(qCoq, "(QBoost 9221120237041090561%N") || strings.Contains(qCoq, "(QBoost 18444492273895866368%N") {
+				class = append(class, "boost=nan")
+			} else if strings.Contains(qCoq, "(QBoost 9218868437227405312%N") || strings.Contains(qCoq, "(QBoost 18442240474082181120%N") {
+				class = append(class, "boost=inf")
+			}
+			vfCase(coq, vfKey(rw.name, coq), changed && size >= 3, class,
 				map[string]any{"rewrite": rw.name, "query": q.String(), "out": out.String()})
 		}
 	}
